@@ -141,6 +141,30 @@ def add_comments(path, ccls, rng):
     open(path, "w").write("\n".join(lines))
 
 
+def move_metadata(path, rng):
+    """the '# variable/units/x0/x1' lines may stand anywhere in the file: after the header, between rows, at the end"""
+    lines = [l for l in open(path).read().split("\n")]
+    while lines and lines[-1] == "":
+        lines.pop()
+    ismeta = lambda l: l.startswith("# variable:") or l.startswith("# units:") or l.startswith("# x0:") or l.startswith("# x1:")
+    meta = [l for l in lines if ismeta(l)]
+    rest = [l for l in lines if not ismeta(l)]
+    hdr = [i for i, l in enumerate(rest) if l.strip() and not l.startswith("#")]
+    mode = rng.choice(["top", "top", "after-header", "end", "spread"])
+    if not meta or not hdr or mode == "top":
+        return "top"
+    h = hdr[0]
+    if mode == "after-header":
+        rest[h + 1:h + 1] = meta
+    elif mode == "end":
+        rest += meta
+    else:
+        for m in meta:
+            rest.insert(rng.randint(h + 1, len(rest)), m)
+    open(path, "w").write("\n".join(rest) + "\n")
+    return mode
+
+
 def effective(inp):
     """What a reader can know: dims that occur in rows; zeros for absent metadata columns."""
     st = inp["style"]
@@ -163,6 +187,7 @@ def run_case(case, ctx):
     rng = random.Random(str(sorted(inp["cells"]))[:200])
     path = gen.write_text(inp, os.path.join(d, "t.txt"), rng)
     add_comments(path, case["comment_class"], rng)
+    ctx.count("metadata_lines:" + move_metadata(path, random.Random("meta" + str(sorted(inp["cells"]))[:200])))
     case = dict(case, text=open(path).read()[:6000])
     cols = st["cols"]
     feats = sum([st["shuffle_cols"], st["shuffle_rows"], case["sparse"] > 0,
